@@ -45,6 +45,14 @@ type popCfg struct {
 	note func(string)
 	// wideVersions: header versions beyond 1.0..1.4 (majors/minors up to 11, negative components).
 	wideVersions bool
+
+	// directed coverage (nil = random): the operation of the FIRST batch item of the message is
+	// Ops[*opSeq mod #ops]; standard attribute names are taken in turn (*attrSeq is advanced)
+	opSeq   *int
+	attrSeq *int
+	opUsed  bool
+	// forceVer: the header's protocol version (the first ProtocolVersion populated) is this one
+	forceVer *kmip.ProtocolVersion
 }
 
 // cycler hands out round-robin indices per choice class.
@@ -178,6 +186,17 @@ next:
 		p.count("other-field." + t.Name() + "." + f.Name)
 		p.populate(v.Field(i))
 	}
+}
+
+// pickOp: the registered operation of the next generated batch item (directed: the FIRST item of the message
+// takes Ops[*opSeq mod #ops]; otherwise round-robin or random per class, see pick).
+func (p *popCfg) pickOp(class string) schema.OpEntry {
+	if p.opSeq != nil && !p.opUsed {
+		p.opUsed = true
+		n := len(p.s.Ops)
+		return p.s.Ops[((*p.opSeq)%n+n)%n]
+	}
+	return p.s.Ops[p.pick(class, len(p.s.Ops))]
 }
 
 func (p *popCfg) gatedOut(t reflect.Type, fieldName string) bool {
@@ -410,6 +429,9 @@ func (p *popCfg) populate(v reflect.Value) {
 			x.ProtocolVersionMajor = rng.Pick(r, []int32{1, 1, 2, 3, 9, 10, 11, -1})
 			x.ProtocolVersionMinor = rng.Pick(r, []int32{0, 5, 7, 9, 10, 11, 100, -1})
 		}
+		if p.ver == nil && p.forceVer != nil {
+			*x = *p.forceVer
+		}
 		if p.ver == nil {
 			v := *x
 			p.ver = &v // the first ProtocolVersion populated is the header's
@@ -638,7 +660,8 @@ func (p *popCfg) genObject() (kmip.ObjectType, kmip.Object) {
 func (p *popCfg) popRequestItem(x *kmip.RequestBatchItem) {
 	r := p.r
 	*x = kmip.RequestBatchItem{}
-	if r.Chance(1, 8) {
+	directed := p.opSeq != nil && !p.opUsed
+	if !directed && r.Chance(1, 8) {
 		// operation unknown to the library: opaque payload
 		op := kmip.Operation(0x2C + r.Intn(20))
 		if r.Bool() {
@@ -648,7 +671,7 @@ func (p *popCfg) popRequestItem(x *kmip.RequestBatchItem) {
 		x.Operation, x.RequestPayload = op, pl
 		p.count("op.req.unknown")
 	} else {
-		op := p.s.Ops[p.pick("op.req", len(p.s.Ops))]
+		op := p.pickOp("op.req")
 		pl := kmip.VerifNewRequestPayload(kmip.Operation(op.Op))
 		p.populate(reflect.ValueOf(pl).Elem())
 		x.Operation, x.RequestPayload = kmip.Operation(op.Op), pl
@@ -667,8 +690,9 @@ func (p *popCfg) popRequestItem(x *kmip.RequestBatchItem) {
 func (p *popCfg) popResponseItem(x *kmip.ResponseBatchItem) {
 	r := p.r
 	*x = kmip.ResponseBatchItem{}
-	failed := r.Chance(1, 4)
-	if r.Chance(1, 8) {
+	directed := p.opSeq != nil && !p.opUsed
+	failed := !directed && r.Chance(1, 4)
+	if !directed && r.Chance(1, 8) {
 		op := kmip.Operation(0x2C + r.Intn(20))
 		x.Operation = op
 		if !failed {
@@ -676,7 +700,7 @@ func (p *popCfg) popResponseItem(x *kmip.ResponseBatchItem) {
 			p.count("op.resp.unknown")
 		}
 	} else if !(failed && r.Chance(1, 3)) {
-		op := p.s.Ops[p.pick("op.resp", len(p.s.Ops))]
+		op := p.pickOp("op.resp")
 		x.Operation = kmip.Operation(op.Op)
 		if !failed {
 			pl := kmip.VerifNewResponsePayload(kmip.Operation(op.Op))
@@ -727,6 +751,10 @@ func (p *popCfg) popAttribute(x *kmip.Attribute) {
 		p.count("attr.unknown")
 	default:
 		a := p.s.Attrs[p.pick("attr", len(p.s.Attrs))]
+		if p.attrSeq != nil {
+			a = p.s.Attrs[*p.attrSeq%len(p.s.Attrs)]
+			*p.attrSeq++
+		}
 		p.count("attr.name." + a.Name)
 		x.AttributeName = kmip.AttributeName(a.Name)
 		var ty reflect.Type
